@@ -869,13 +869,15 @@ theorem mixedChannel_tag {refs : List (Str × Str)} {tag s : Str} {n : Node} (h 
   unfold Chan.mixedChannel at h
   split at h
   · split at h
-    · simp only [Chan.Outcome.ok.injEq] at h
-      rename_i n' hp
-      unfold Chan.nodeParsed at hp
-      split at hp
-      · simp only [Option.some.injEq] at hp; exact ⟨_, _, by rw [← h, ← hp]⟩
-      · simp at hp
     · simp at h
+    · split at h
+      · simp only [Chan.Outcome.ok.injEq] at h
+        rename_i n' hp
+        unfold Chan.nodeParsed at hp
+        split at hp
+        · simp only [Option.some.injEq] at hp; exact ⟨_, _, by rw [← h, ← hp]⟩
+        · simp at hp
+      · simp at h
   · simp only [Chan.Outcome.ok.injEq, Chan.nodeText] at h; exact ⟨_, _, h.symm⟩
   · simp at h
   · simp at h
@@ -1145,40 +1147,48 @@ theorem convert_c02_partial (wb : Workbook) (doc : Node) (h : convertDoc wb = .o
 /-! ## 6b. C03: every `${name}` of a bind value resolves to the named element -/
 
 /-- a successful substitution answered every occurrence the regex finds -/
-theorem substRefs_refs_ok (repl : Bool → Str → Option Str) : ∀ (fuel : Nat) (s out : Str),
-    Refs.substRefs repl fuel s = some out → ∀ r ∈ Refs.findRefs fuel s, (repl r.1 r.2).isSome = true
-  | 0, _, _, h => by simp [Refs.substRefs] at h
-  | fuel + 1, [], _, _ => by simp [Refs.findRefs]
-  | fuel + 1, c :: r, out, h => by
-    rw [Refs.substRefs] at h
-    rw [Refs.findRefs]
-    split at h
-    · rename_i hc
-      simp only [hc, and_self, ↓reduceIte]
-      split at h
-      · rename_i ls name rest hm
-        try simp only [hm]
-        cases hr : repl ls name with
-        | none => simp [hr] at h
-        | some v =>
-          cases hs : Refs.substRefs repl fuel rest with
-          | none => simp [hr, hs] at h
-          | some o =>
-            intro x hx
-            simp only [List.mem_cons] at hx
-            rcases hx with rfl | hx
-            · simp [hr]
-            · exact substRefs_refs_ok repl fuel rest o hs x hx
-      · rename_i hm
-        try simp only [hm]
+theorem substRefs_refs_ok (repl : Str → Str → Bool → Str → Option Str) (g : Bool → Str → Option Str)
+    (hg : ∀ a b ls n, repl a b ls n = g ls n) : ∀ (fuel : Nat) (s out : Str),
+    Refs.substRefs repl fuel s = some out → ∀ r ∈ Refs.findRefs fuel s, (g r.1 r.2).isSome = true := by
+  intro fuel
+  induction fuel with
+  | zero => intro s out h; simp [Refs.substRefs] at h
+  | succ fuel ih =>
+    intro s out h
+    cases s with
+    | nil => simp [Refs.findRefs]
+    | cons c r =>
+      rw [Refs.substRefs] at h
+      rw [Refs.findRefs]
+      by_cases hcond : c = '$' ∧ r.head? = some '{'
+      · rw [if_pos hcond] at h ⊢
+        cases hm : Chan.matchRef r.tail with
+        | none =>
+          rw [hm] at h
+          simp only []
+          cases hs : Refs.substRefs repl fuel r with
+          | none => simp [hs] at h
+          | some o => exact ih r o hs
+        | some m =>
+          obtain ⟨ls, name, rest⟩ := m
+          rw [hm] at h
+          simp only [] at h ⊢
+          rw [hg] at h
+          cases hr : g ls name with
+          | none => simp [hr] at h
+          | some v =>
+            cases hs : Refs.substRefs repl fuel rest with
+            | none => simp [hr, hs] at h
+            | some o =>
+              intro x hx
+              simp only [List.mem_cons] at hx
+              rcases hx with rfl | hx
+              · simp [hr]
+              · exact ih rest o hs x hx
+      · rw [if_neg hcond] at h ⊢
         cases hs : Refs.substRefs repl fuel r with
         | none => simp [hs] at h
-        | some o => exact substRefs_refs_ok repl fuel r o hs
-    · rename_i hc
-      simp only [hc, ↓reduceIte]
-      cases hs : Refs.substRefs repl fuel r with
-      | none => simp [hs] at h
-      | some o => exact substRefs_refs_ok repl fuel r o hs
+        | some o => exact ih r o hs
 
 /-- the references of the text `s`, read from the element `ctx`, all reach the element they name -/
 def HolesResolve (els : List Refs.Chain) (ctx : Refs.Chain) (s : Str) : Prop :=
@@ -1190,7 +1200,8 @@ theorem insertXpaths_holes (els : List Refs.Chain) (hv : ∀ t ∈ els, Refs.Goo
     (ctx : Refs.Chain) (hc : Refs.GoodNames ctx.path) (s out : Str)
     (h : Refs.insertXpaths els (some ctx) {} s = some out) : HolesResolve els ctx s := by
   intro r hr
-  have hok := substRefs_refs_ok _ _ _ _ h r hr
+  have hok := substRefs_refs_ok _ (fun ls name => (Refs.refFor els (some ctx) name { lastSaved := ls }).text)
+    (fun _ _ _ _ => rfl) _ _ _ h r hr
   cases hf : Refs.refFor els (some ctx) r.2 { lastSaved := r.1 } with
   | ok cur e =>
     obtain ⟨t, ht, hres⟩ := Refs.ref_resolves els hv ctx hc r.2 _ cur e hf
